@@ -3,7 +3,8 @@
 // Real pki.Server (RequestCertificate / RenewCertificate) with a CA made by the
 // worker; seeded ed25519 keys. Per key: issuance (twice), then the renewal matrix
 // {our CA, foreign CA, foreign CA with our CA's name} x {v2, v1 subject} x {own key,
-// other key} plus corrupted / non-client certificates, and a renewal of the renewal.
+// other key}, validity classes {expired, not yet valid} x the three CAs, corrupted /
+// non-client certificates, and a renewal of the renewal.
 package main
 
 import (
@@ -77,11 +78,12 @@ type env struct {
 	twin    tls.Certificate // same subject name as ourCA, different key
 	logger  *zap.Logger
 
-	mu      sync.Mutex
-	tokens  map[string]string // token -> key fingerprint
-	sampled map[string]bool
-	expired int64
-	sem     chan struct{} // bounds the CPU-heavy part (proof of work + RPC)
+	mu          sync.Mutex
+	tokens      map[string]string // token -> key fingerprint
+	sampled     map[string]bool
+	expired     int64
+	outOfWindow map[string]int
+	sem         chan struct{} // bounds the CPU-heavy part (proof of work + RPC)
 }
 
 // expiredProof: the 10-second proof-of-work stamp ran out before the server looked at
@@ -352,6 +354,79 @@ func (e *env) runKey(idx int, k, other kp, rng *mrand.Rand) {
 	}
 	defer wg.Wait()
 
+	// --- validity classes: a certificate outside its validity window. The x509 verifier
+	// looks at the dates before it looks at the chain, so these are the cases in which a
+	// foreign issuer could slip through. A foreign-CA certificate must never be renewed;
+	// whether an out-of-window certificate of the client CA is renewable is not pinned by
+	// the statement: counted, not judged.
+	mkDated := func(ca tls.Certificate, pub ed25519.PublicKey, notBefore, notAfter time.Time) []byte {
+		caCert, err := x509.ParseCertificate(ca.Certificate[0])
+		if err != nil {
+			panic(err)
+		}
+		h := sha256.Sum256(pub)
+		sn := new(big.Int).SetUint64(rng.Uint64())
+		tmpl := &x509.Certificate{
+			SerialNumber:          sn,
+			Subject:               pki.MakeSubjectV2(rng.Uint64()%chord.MaxIdentitifer, h[:]),
+			NotBefore:             notBefore,
+			NotAfter:              notAfter,
+			ExtKeyUsage:           []x509.ExtKeyUsage{x509.ExtKeyUsageClientAuth},
+			KeyUsage:              x509.KeyUsageDigitalSignature,
+			BasicConstraintsValid: true,
+		}
+		der, err := x509.CreateCertificate(rand.Reader, tmpl, caCert, pub, ca.PrivateKey)
+		if err != nil {
+			panic(err)
+		}
+		return der
+	}
+	now := time.Now()
+	for _, dc := range []struct {
+		validity string
+		nb, na   time.Time
+	}{
+		{"expired", now.Add(-48 * time.Hour), now.Add(-24 * time.Hour)},
+		{"not-yet-valid", now.Add(24 * time.Hour), now.Add(48 * time.Hour)},
+	} {
+		for _, can := range []string{"our", "foreign", "twin"} {
+			cn := name(fmt.Sprintf("renew/%s-ca/v2/%s/own-key=true", can, dc.validity))
+			if !r.WantCase(cn) {
+				continue
+			}
+			ca := map[string]tls.Certificate{"our": e.ourCA, "foreign": e.foreign, "twin": e.twin}[can]
+			der := mkDated(ca, k.pub, dc.nb, dc.na)
+			wg.Add(1)
+			go func(can, validity, cn string, der []byte) {
+				defer wg.Done()
+				resp, err := e.renew(k, der)
+				if harnessErr(cn, err) {
+					return
+				}
+				r.Case(fmt.Sprintf("renew/%s/v2/%s/accepted=%v", can, validity, err == nil))
+				if can == "our" {
+					// not judged; but if it is renewed, the result must still be a proper certificate of the same subject
+					e.mu.Lock()
+					e.outOfWindow[fmt.Sprintf("client-ca/%s/renewed=%v", validity, err == nil)]++
+					e.mu.Unlock()
+					if err == nil {
+						if nc, _, ok := e.checkIssued(cn, "certificate renewed from a "+validity+" client-CA certificate", resp.GetCertDer(), k); ok {
+							if oc, perr := x509.ParseCertificate(der); perr == nil && string(nc.RawSubject) != string(oc.RawSubject) {
+								r.Violation("renewed:subject-changed", cn, fmt.Sprintf("subject %q became %q", oc.Subject, nc.Subject), nil)
+							}
+						}
+					}
+					return
+				}
+				if err == nil {
+					r.Violation(fmt.Sprintf("renew:%s-ca:v2:%s:accepted", can, validity), cn,
+						fmt.Sprintf("a %s certificate issued by the %s CA (not the client CA) was renewed into a client-CA certificate", validity, can),
+						map[string]any{"cert_der_b64": base64.StdEncoding.EncodeToString(der), "renewed_der_b64": base64.StdEncoding.EncodeToString(resp.GetCertDer())})
+				}
+			}(can, dc.validity, cn, der)
+		}
+	}
+
 	// --- certificates that are not client certificates of our CA at all ---
 	corrupt := append([]byte(nil), ders[1]...)
 	// flip one bit inside the subject's id digits (TBS part): signature no longer matches
@@ -387,7 +462,7 @@ func (e *env) runKey(idx int, k, other kp, rng *mrand.Rand) {
 
 func main() {
 	r := ev.Start("C32", "exploration")
-	r.SetRule("per seeded ed25519 key: two issuances, renewal matrix {client CA, foreign CA, foreign CA carrying the client CA's name} x {v2, v1 subject} x {proof by own key, by another key}, renewal of the renewed certificate (own / other key), corrupted / CA / truncated certificates; distinct by (matrix cell, accepted or not)")
+	r.SetRule("per seeded ed25519 key: two issuances, renewal matrix {client CA, foreign CA, foreign CA carrying the client CA's name} x {v2, v1 subject} x {proof by own key, by another key}, renewal of the renewed certificate (own / other key), {expired, not yet valid} v2 certificates of each of the three CAs with a proof by the own key, corrupted / CA / truncated certificates; distinct by (matrix cell, accepted or not)")
 	rng := r.Rand("c32")
 	logger := zap.NewNop()
 	our := makeCA("verif client ca")
@@ -398,7 +473,7 @@ func main() {
 		r: r, logger: logger, ourCA: our, pool: pool,
 		foreign: makeCA("somebody else's ca"), twin: makeCA("verif client ca"),
 		server: &pkiimpl.Server{Logger: logger, ClientCA: our},
-		tokens: map[string]string{}, sampled: map[string]bool{}, sem: make(chan struct{}, runtime.GOMAXPROCS(0)),
+		tokens: map[string]string{}, sampled: map[string]bool{}, outOfWindow: map[string]int{}, sem: make(chan struct{}, runtime.GOMAXPROCS(0)),
 	}
 	nKeys := r.Pick(16, 300)
 	type item struct {
@@ -422,6 +497,7 @@ func main() {
 	r.Count("keys", int64(nKeys))
 	r.Count("distinct_tokens", int64(len(e.tokens)))
 	r.Count("proofs_regenerated_after_expiry", e.expired)
+	r.Extra("out_of_window_client_ca_certificates_not_judged", e.outOfWindow)
 	r.Extra("pow", map[string]any{"difficulty": pki.HashcashDifficulty, "expires_s": pki.HashcashExpires.Seconds()})
 	r.Assume("the client CA private key is held only by the server (certificates with arbitrary subjects signed by the client CA are made by the worker only for the v1 cells)")
 	r.Assume("a server answer naming an expired proof-of-work stamp is re-tried with a fresh proof (the stamp lives 10 s); it never decides a case")
